@@ -29,7 +29,11 @@ RULE = (
     "links/SEQEND/block references resolve, required table and CLASS entries, version gates for entity types and "
     "header variables) + no dead entity written + every live linked entity written exactly once; O3: every named object "
     "kind x {delete, rename, remove} through every case variant of its name, then write + validate; O4: independent "
-    "table of type / header-variable ages on files of all versions. non-trivial = history with at least one mutation "
+    "table of type / header-variable ages on files of all versions; O5 guarded block deletion x nested block references; "
+    "O6 page_setup / reset_viewports sequences (LAYOUT pointers resolve); O7 table entries of every kind created in R12, "
+    "reloaded, version raised (owner of every table entry = its table head); O8 EntityDB.reset_handle around the $HANDSEED "
+    "boundary; O9 arrow blocks created by the export; in every rich history the BLOCKS/ENTITIES records of the first export "
+    "equal those of a later export. non-trivial = history with at least one mutation "
     "besides creation; distinct by hash of the history seed."
 )
 TRUSTED_BASE = [
@@ -131,6 +135,27 @@ def layout_pointer_problems(tags):
     return out
 
 
+def table_owner_problems(tags, version):
+    """R2000+: the owner (330) of every table entry is the handle of the TABLE head it is written under"""
+    if version <= "AC1009":
+        return []
+    sections, _ = dxfparse.split_file(tags)
+    out = []
+    head = None
+    for r in dict(sections).get("TABLES", []):
+        t = dxfparse.rec_type(r)
+        if t == "TABLE":
+            head = dxfparse.rec_handle(r)
+        elif t == "ENDTAB":
+            head = None
+        elif head is not None:
+            owner = next((v for c, v in r if c == 330), None)
+            if owner is None or owner.upper() != head.upper():
+                name = next((v for c, v in r if c == 2), "?")
+                out.append(f"{t} '{name}' #{dxfparse.rec_handle(r)} in TABLES: owner {owner} is not its table head {head}")
+    return out
+
+
 def correspond(ctx):
     c04_version.correspond(ctx)
     rng = ctx.rng("c04")
@@ -162,6 +187,25 @@ def correspond(ctx):
             cases.append((req, None, False))
         cases.append(("dump", (impl, seed_after), mutated))
         ctx.hist("X1 written skeleton", version)
+    # directed histories (shared with C05): wrong-layout requests, deletion of the highest handles before / between saves
+    from props.c05 import directed_histories, resolve
+    for hist in directed_histories():
+        for version in ("R2000", "R2018"):
+            r = Runner(version)
+            cases.append((r.init_line(), None, False))
+            for op in hist:
+                op = resolve(r, op)
+                if op is None:
+                    continue
+                req, out = r.apply(op)
+                cases.append((req, None, False))
+            s = io.StringIO()
+            r.doc.write(s)
+            blocks, ents, seed_after, groups = skeleton(dxfparse.parse_ascii(s.getvalue()))
+            impl = " ".join(f"{k}:{','.join(map(str, hs))}" for k, hs in blocks) + ";" + ",".join(map(str, ents)) + \
+                ";" + " ".join(f"{g}:{','.join(map(str, ms))}" for g, ms in groups)
+            cases.append(("dump", (impl, seed_after), True))
+            ctx.hist("X1 written skeleton", "directed")
     # only the dump lines are compared (the per-step observables are C05's stream)
     outs = ctx.driver("C05", [c[0] for c in cases], build=DRIVER_DEPS)
     n = 0
@@ -190,7 +234,7 @@ def write_and_check(ctx, r: Runner, fmt: str, rep: dict, tabs):
         b = io.BytesIO()
         doc.write(b, fmt="bin")
         tags = dxfparse.parse_binary(b.getvalue())
-    problems = dxfparse.check_file(tags, version, minv, req, hmin) + layout_pointer_problems(tags)
+    problems = dxfparse.check_file(tags, version, minv, req, hmin) + layout_pointer_problems(tags) + table_owner_problems(tags, version)
     # F20: the extension dictionary of an entity that was unlinked (and is gone after a reload) stays in OBJECTS
     unlinked_xd = {"%X" % h for h, e in r.ents.items()
                    if (not e.is_alive) or (e.dxf.owner is None and e.has_extension_dict)}
@@ -407,6 +451,114 @@ def probe_viewport_delete(ctx, tabs):
         ctx.fail("layout-viewport-deleted/R2010", f"page_setup(), then delete_entity() of every VIEWPORT: {p}", {"op": "probe-viewport-delete"})
 
 
+def version_raise_sweep(ctx, tabs):
+    """O7: entries of EVERY table kind (incl. shape-file text styles, layers, block records) created in an R12 document,
+    saved as R12 (no owner tags, no OBJECTS), reloaded, the version raised through doc.dxfversion, saved: the owner handles,
+    required objects and all other guarantees of the newer version must hold"""
+    import ezdxf
+
+    for target in ("R2000", "R2004", "R2010", "R2018"):
+        for via_reload in (True, False):
+            doc = ezdxf.new("R12")
+            doc.layers.add("L1")
+            doc.linetypes.add("LT1", pattern=[0.2, 0.1, -0.1])
+            doc.styles.add("S1", font="arial.ttf")
+            doc.styles.add_shx("ltypeshp.shx")
+            doc.styles.add_shx("other.shx")
+            doc.dimstyles.add("D1")
+            doc.appids.add("APP1")
+            doc.ucs.add("U1")
+            doc.views.add("V1")
+            blk = doc.blocks.new("B1")
+            blk.add_line((0, 0), (1, 1))
+            msp = doc.modelspace()
+            msp.add_blockref("B1", (0, 0)).add_attrib("T", "v")
+            msp.add_polyline2d([(0, 0), (1, 0)])
+            msp.add_text("t", dxfattribs={"style": "S1"})
+            if via_reload:
+                s = io.StringIO()
+                doc.write(s)
+                doc = ezdxf.read(io.StringIO(s.getvalue()))
+            rep = {"op": "version-raise", "target": target, "via_reload": via_reload}
+            try:
+                doc.dxfversion = target
+            except Exception as e:  # noqa
+                ctx.hist("O7 version raise", "rejected:" + type(e).__name__)
+                continue
+            r = Runner.__new__(Runner)
+            r.doc, r.version, r.ents, r.order, r.subs = doc, target, {}, [], {}
+            ctx.count("O7 version raise", (target, via_reload), True)
+            try:
+                write_and_check(ctx, r, "ascii", rep, tabs)
+                # and once more after a reload of the raised file
+                s = io.StringIO()
+                doc.write(s)
+                r.doc = ezdxf.read(io.StringIO(s.getvalue()))
+                write_and_check(ctx, r, "ascii", rep, tabs)
+            except Exception as e:  # noqa
+                ctx.fail(f"write-raised/{target}/ascii/{type(e).__name__}", f"R12 document raised to {target}: writing raised {type(e).__name__}: {e}", rep)
+
+
+def arrow_sweep(ctx, tabs):
+    """O9: objects that the export itself has to create: the blocks of the ACAD arrows named in DIMSTYLE entries
+    (dimblk, dimblk1, dimblk2, dimldrblk) and in dimension overrides - all handles must still be below $HANDSEED"""
+    from ezdxf.render.arrows import ARROWS
+
+    names = sorted(n for n in ARROWS.__all_arrows__ if ARROWS.is_acad_arrow(n) and n)
+    for version in VERSIONS:
+        for i, attr in enumerate(("dimblk", "dimblk1", "dimblk2", "dimldrblk")):
+            for j in range(3):
+                r = Runner(version)
+                doc = r.doc
+                st = doc.dimstyles.new("DS")
+                picked = [names[(i * 7 + j * 3 + k) % len(names)] for k in range(2)]
+                st.dxf.set(attr, picked[0])
+                if attr != "dimldrblk":
+                    st.dxf.set("dimldrblk", picked[1])
+                r.track(doc.modelspace().add_line((0, 0), (1, 1)))
+                rep = {"op": "arrows", "version": version, "attr": attr, "names": picked}
+                ctx.count("O9 export-created objects", (version, attr, j), True)
+                try:
+                    write_and_check(ctx, r, "ascii", rep, tabs)
+                except Exception as e:  # noqa
+                    ctx.fail(f"write-raised/{version}/ascii/{type(e).__name__}", f"{version} DIMSTYLE {attr}={picked}: writing raised {type(e).__name__}: {e}", rep)
+
+
+def reset_handle_sweep(ctx, tabs):
+    """O8: EntityDB.reset_handle(entity, H) for H around the next handle (= $HANDSEED of the last export: -1, 0, +1, +2,
+    +16), new and reloaded documents, no other handle allocated before the next save: every handle < $HANDSEED, unique"""
+    import ezdxf
+
+    for version in VERSIONS:
+        for reloaded in (False, True):
+            for offset in (-1, 0, 1, 2, 16):
+                r = Runner(version)
+                e = r.doc.modelspace().add_line((0, 0), (1, 1))
+                r.track(e)
+                s = io.StringIO()
+                r.doc.write(s)
+                if reloaded:
+                    r.doc = ezdxf.read(io.StringIO(s.getvalue()))
+                    e = r.doc.entitydb.get(e.dxf.handle)
+                    r.ents = {hx(e.dxf.handle): e}
+                    r.order = [hx(e.dxf.handle)]
+                    s = io.StringIO()
+                    r.doc.write(s)   # a later export creates no new objects
+                nxt = int(str(r.doc.entitydb.handles), 16)
+                new = "%X" % (nxt + offset)
+                rep = {"op": "reset-handle", "version": version, "offset": offset, "reloaded": reloaded}
+                if new in r.doc.entitydb:
+                    continue
+                ok = r.doc.entitydb.reset_handle(e, new)
+                r.ents = {hx(e.dxf.handle): e}
+                r.order = [hx(e.dxf.handle)]
+                ctx.count("O8 reset_handle", (version, reloaded, offset), True)
+                try:
+                    write_and_check(ctx, r, "ascii", rep, tabs)
+                except Exception as ex:  # noqa
+                    ctx.fail(f"write-raised/{version}/ascii/{type(ex).__name__}", f"{version} reset_handle(+{offset}): writing raised {type(ex).__name__}: {ex}", rep)
+
+
 def oracle(ctx):
     signal.signal(signal.SIGALRM, _on_alarm)
     rng = ctx.rng("oracle")
@@ -416,12 +568,26 @@ def oracle(ctx):
     case_variant_sweep(ctx, tabs)
     nested_block_sweep(ctx, tabs)
     layout_setup_sweep(ctx, tabs)
+    version_raise_sweep(ctx, tabs)
+    reset_handle_sweep(ctx, tabs)
+    arrow_sweep(ctx, tabs)
     c04_version.oracle(ctx)
     for i in range(ctx.n(300, 4000)):
         seed = rng.randrange(1 << 30)
         version = list(VERSIONS)[i % 7]
         length = rng.choice([8, 16, 30])
         run_rich(ctx, seed, version, length, tabs)
+
+
+def entity_records(doc):
+    s = io.StringIO()
+    doc.write(s)
+    sections, _ = dxfparse.split_file(dxfparse.parse_ascii(s.getvalue()))
+    sec = dict(sections)
+    def mask(t):   # the ezdxf time stamp of R12 files lives in the XDATA of the modelspace BLOCK
+        return (t[0], "<time>") if t[0] == 1000 and re.match(r"^\d[\w.]* @ \d{4}-\d\d-\d\dT", str(t[1])) else t
+
+    return [tuple(mask(t) for t in rec) for name in ("BLOCKS", "ENTITIES") for rec in sec.get(name, [])]
 
 
 def run_rich(ctx, seed, version, length, tabs):
@@ -451,6 +617,14 @@ def run_rich(ctx, seed, version, length, tabs):
     ctx.count("O1 rich history", (seed, version), any(o not in ("add", "ins") for o in ops))
     for o in ops:
         ctx.hist("O1 rich history", o)
+    # writing must not change what is written next: the records of BLOCKS and ENTITIES of the FIRST export (taken before
+    # any other export) are compared with those of a later export (export-time repairs such as clearing a group change the
+    # reactors of graphical entities: they have to happen before the first section is written)
+    first = None
+    try:
+        first = entity_records(r.doc)
+    except Exception:  # noqa  (reported by write_and_check below)
+        pass
     for fmt in ("ascii", "binary"):
         try:
             write_and_check(ctx, r, fmt, rep, tabs)
@@ -459,6 +633,15 @@ def run_rich(ctx, seed, version, length, tabs):
                 ctx.fail(f"group-multi-layout/{version}/{fmt}", f"{version} {fmt}: writing raised {type(e).__name__}: {e}", rep)
                 return
             ctx.fail(f"write-raised/{version}/{fmt}/{type(e).__name__}", f"{version} {fmt}: writing raised {type(e).__name__}: {e}", rep)
+    if first is not None:
+        try:
+            again = entity_records(r.doc)
+            if again != first:
+                diff = next((a for a, b in zip(first, again) if a != b), None)
+                what = f"{dxfparse.rec_type(diff)} #{dxfparse.rec_handle(diff)}" if diff else "number of records"
+                ctx.fail(f"export-mutates-document/{version}", f"{version}: BLOCKS/ENTITIES of the first export differ from the next export ({what})", rep)
+        except Exception:  # noqa
+            pass
     # the written file must load strictly
     try:
         s = io.StringIO()
@@ -482,5 +665,11 @@ def replay(ctx, rep):
             nested_block_sweep(ctx, tabs)
         elif r.get("op") == "layout-setup":
             layout_setup_sweep(ctx, tabs)
+        elif r.get("op") == "version-raise":
+            version_raise_sweep(ctx, tabs)
+        elif r.get("op") == "reset-handle":
+            reset_handle_sweep(ctx, tabs)
+        elif r.get("op") == "arrows":
+            arrow_sweep(ctx, tabs)
     bad = ctx.failures[n0:]
     return (not bad, "; ".join(x.key for x in bad) or "recorded histories pass now")
